@@ -28,6 +28,7 @@ type sctx struct {
 	fn        *ssa.Function // function whose locals may be named (loop invariants, asserts)
 	defining  *opaqueInfo   // set while the body of an opaque spec function is being translated
 	loopSeen  string        // "seen" names the set of keys already visited by the enclosing map-range loop
+	before    *State        // state before the call at which ghost code is anchored
 }
 
 func (vc *VC) ctx(cur, old *State) *sctx {
@@ -738,6 +739,11 @@ func (c *sctx) call(x *ECall) (Term, *SType) {
 	switch id.Name {
 	case "old":
 		return c.inState(c.old).expr(x.Args[0])
+	case "before":
+		if c.before == nil {
+			panic(specErr(x, "before() is only available in ghost code anchored after a call"))
+		}
+		return c.inState(c.before).expr(x.Args[0])
 	case "len":
 		t, ty := arg(0)
 		switch {
@@ -773,7 +779,17 @@ func (c *sctx) call(x *ECall) (Term, *SType) {
 		}
 		st := &SType{Kind: "seq", Elem: goT(sl.Elem())}
 		comp, cs := vc.elemsComp(sl.Elem())
-		return app(seqFn(c.sortOf(st), "ofarr"), app("select", vc.comp(c.cur, comp, cs), app("ys.arr", t)), app("ys.off", t), app("ys.len", t)), st
+		sq := app(seqFn(c.sortOf(st), "ofarr"), app("select", vc.comp(c.cur, comp, cs), app("ys.arr", t)), app("ys.off", t), app("ys.len", t))
+		if isRefType(sl.Elem()) && !c.cur.symbolic && closedTerm(sq) {
+			// the elements of a slice of references denote allocated objects (Go's memory safety)
+			key := "seqvalid:" + sq
+			if _, done := vc.uninterp[key]; !done {
+				vc.uninterp[key] = "1"
+				at := seqFn(c.sortOf(st), "at")
+				vc.assume(fmt.Sprintf("(forall ((k Int)) (! (=> (and (<= 0 k) (< k %s)) (< (%s %s k) %s)) :pattern ((%s %s k))))", app("ys.len", t), at, sq, vc.next(c.cur), at, sq))
+			}
+		}
+		return sq, st
 	case "dom":
 		t, ty := arg(0)
 		m, ok := ty.Go.Underlying().(*types.Map)
